@@ -331,6 +331,11 @@ def run_c20(tier, seed, escalate=False, replay=None):
                 if ex:
                     reps = engine.run_cases(comp, seed, len(ex), {}, explicit=ex)
                     _judge_stream(S(comp, "all" if comp != "loader" else "err", [], 0, 0), reps, failures, cov, stats)
+            # reading a processor file (hw_loading.read_processor), incl. the history "same path, other contents of the
+            # same size and time stamps, loaded before"
+            nh = 120 if tier == "quick" else 3000
+            reps = engine.run_cases("hwload", seed, nh, {})
+            _judge_stream(S("hwload", "all", [], 0, 0), reps, failures, cov, stats)
             cov["model_compared"] = stats.counters["evaluations"]
     cov["exhaustive"] = False
     import implrun_probe
